@@ -124,7 +124,11 @@ def _has_batch(tree):
 
 @st.composite
 def cases(draw):
-    target_kind = draw(st.sampled_from(["tree"] * 6 + ["file"]))
+    # partial cache of the OLD workspace tree: the final prior workspace is staged into the cache
+    # (tree object + files) and a drawn subset of its FILE objects is removed again (indices)
+    cot = draw(st.one_of(st.just(None), st.just(None), st.just(None), st.just(None),
+                         st.lists(st.integers(0, 7), max_size=3)))
+    target_kind = draw(st.sampled_from(["tree"] * 6 + ["file"] if cot is None else ["tree", "tree", "file"]))
     case = {
         "half": "checkout",
         "kind": draw(st.sampled_from(ops.STORE_KINDS)),
@@ -175,6 +179,11 @@ def cases(draw):
         case["drop_symlinked"] = draw(st.sampled_from([False, False, True]))
     else:
         case["target"] = draw(_content())
+    case["cache_old_tree"] = cot
+    if cot is not None and target_kind == "file" and draw(st.sampled_from([True, True, False])):
+        # directory -> file change of the root: the workspace is a directory with a few files
+        case["edits"] = [{"op": "f2d", "i": 0, "kids": draw(
+            st.dictionaries(gen.names(), st.integers(0, 7), min_size=1, max_size=3))}] + case["edits"][:3]
     # a status-like dry-run staging of the workspace through the same State during which the user
     # saves uncached content into a file that was already read (before State.save_many runs)
     case["race"] = None
@@ -380,6 +389,10 @@ def apply_edits(ws, edits, palette, clock, labels):
             labels.add("edit:dir->file")
 
 
+def cot_field(case):
+    return case.get("cache_old_tree") is not None
+
+
 def make_writer_fs(ws, skip, pick, action):
     """Harness-owned local filesystem (deterministic, no threads): when the library opens a workspace
     file for reading and another file of the same directory (= same hashing batch) was already opened
@@ -476,7 +489,9 @@ def run_checkout_case(case, ctx):  # noqa: C901, PLR0912, PLR0915
                         labels.add("edit:modify")
                     elif e["op"] in ("f2d", "mkdir"):
                         os.mkdir(ws)
-                        apply_edits(ws, [dict(x) for x in case["edits"][1:]] or
+                        kids = [{"op": "add", "d": 0, "name": n, "c": kc}
+                                for n, kc in sorted((e.get("kids") or {}).items())] if cot_field(case) else []
+                        apply_edits(ws, kids + [dict(x) for x in case["edits"][1:]] or
                                     [{"op": "add", "d": 0, "name": "x", "c": e.get("i", 0)}],
                                     palette, clock, labels)
                         labels.add("edit:file->dir")
@@ -494,6 +509,29 @@ def run_checkout_case(case, ctx):  # noqa: C901, PLR0912, PLR0915
                 gen.write_file(ws, gen.content_bytes(palette[root_file % len(palette)][1]))
                 clock.stamp(ws)
                 labels.add("edit:root-dir->file")
+
+            # partial cache of the old workspace tree: stage the workspace as it is now (tree object and
+            # file objects go into the cache), then remove a drawn subset of its FILE objects again
+            if cot_field(case) and os.path.isdir(ws) and not os.path.islink(ws):
+                wsfiles, _ = snapshot(ws, set())
+                try:
+                    _, wobj, _ = ops.stage_transfer(odb, ws)
+                except FileNotFoundError:       # dangling symlink inside: cannot be staged
+                    wobj = None
+                if wobj is not None and wsfiles:
+                    labels.add("old-tree-cached")
+                    linked = {os.path.realpath(os.path.join(r, f)) for r, _, fl in os.walk(ws) for f in fl
+                              if os.path.islink(os.path.join(r, f))}
+                    woids = sorted({md5(b) for b in wsfiles.values()})
+                    for i in case["cache_old_tree"]:
+                        o = woids[i % len(woids)]
+                        p = os.path.join(cpath, o[:2], o[2:])
+                        if os.path.exists(p) and os.path.realpath(p) not in linked:
+                            os.chmod(p, 0o644)
+                            os.unlink(p)
+                            labels.add("old-tree-cached:file-object-removed")
+                            if o in {md5(b) for b in tflat.values()}:
+                                labels.add("target-object-dropped")
 
             # target objects dropped from the cache (only when no workspace file points into it by name)
             has_symlink = any(
